@@ -7,6 +7,8 @@ import (
 	"go/types"
 	"regexp"
 	"strings"
+
+	"golang.org/x/tools/go/cfg"
 )
 
 // RawAtom is an atomic sub-condition with the polarity it is known to have.
@@ -365,6 +367,16 @@ func sameVertexOrder(a *Sites, b Site) bool {
 // `defer y` statement counts as y from the point it is executed; a deferred y
 // registered on every path before a also discharges.
 func (f *Fn) FollowedBy(r *Rule, a, y *Sites, exits *Sites, label string) bool {
+	return f.followedBy(r, a, y, exits, label, false)
+}
+
+// FollowedByOnSuccess is FollowedBy restricted to the paths that leave a
+// through its success edge.
+func (f *Fn) FollowedByOnSuccess(r *Rule, a, y *Sites, exits *Sites, label string) bool {
+	return f.followedBy(r, a, y, exits, label, true)
+}
+
+func (f *Fn) followedBy(r *Rule, a, y *Sites, exits *Sites, label string, success bool) bool {
 	key := fmt.Sprintf("%s: %s ⇒ eventually %s", f.Name, a.Desc, y.Desc)
 	if label != "" {
 		key = f.Name + ": " + label
@@ -403,11 +415,19 @@ func (f *Fn) FollowedBy(r *Rule, a, y *Sites, exits *Sites, label string) bool {
 			continue
 		}
 		var start []int
-		if cutV[s.V] {
+		if cutV[s.V] && !success {
 			// y in the same statement as a: fine when it comes later
 			continue
 		}
 		start = f.G.Vs[s.V].Succ
+		if success {
+			e, ok := f.SuccessEdge(s)
+			if !ok {
+				r.Fail(key, f.P.Pos(s.Node.Pos()), "result of %s is not tested directly after the call: success edge undecidable", a.Desc)
+				return false
+			}
+			start = []int{e[1]}
+		}
 		targets := []int{f.G.Exit}
 		if exits != nil {
 			targets = nil
@@ -654,4 +674,104 @@ func AtomLike(re string, pos bool) AtomPred {
 		d = "!" + d
 	}
 	return AtomPred{Desc: d, M: func(a Atom) bool { return a.Pos == pos && rx.MatchString(a.Key) }}
+}
+
+// NeverAfter checks that no site of then is reachable from a site of first
+// (e.g. nothing is deleted after the intent log was removed).
+func (f *Fn) NeverAfter(r *Rule, first, then *Sites, label string) bool {
+	key := f.Name + ": " + label
+	first, then = first.Sync(), then.Sync()
+	r.AddSites(first.Len() + then.Len())
+	if first.Len() == 0 || then.Len() == 0 {
+		r.Fail(key, f.P.Pos(f.Body.Pos()), "no site of %q or %q in %s (rule would be vacuous)", first.Desc, then.Desc, f.Name)
+		return false
+	}
+	ok := true
+	for _, a := range first.List {
+		for _, b := range then.List {
+			if a.V == b.V {
+				continue
+			}
+			if p := f.G.Path(f.G.Vs[a.V].Succ, b.V, nil, nil); p != nil {
+				r.Fail(key, f.P.Pos(b.Node.Pos()), "%s can execute after %s; path (lines): %s", then.Desc, first.Desc, f.DescribePath(append([]int{a.V}, p...)))
+				ok = false
+			}
+		}
+	}
+	return ok
+}
+
+// LoopBodyEntry returns the entry vertex of the body of the innermost loop
+// enclosing the site's node, or -1.
+func (f *Fn) LoopBodyEntry(s Site) int {
+	for p := f.parent[s.Node]; p != nil; p = f.parent[p] {
+		switch p.(type) {
+		case *ast.ForStmt, *ast.RangeStmt:
+			for b, id := range f.G.blockE {
+				if (b.Kind == cfg.KindForBody || b.Kind == cfg.KindRangeBody) && b.Stmt == p {
+					return id
+				}
+			}
+			return -1
+		case *ast.FuncLit:
+			return -1
+		}
+	}
+	return -1
+}
+
+// AfterEdgesMustPass checks: once one of the edges is taken, a site of s is
+// passed before the function exits or the branching vertex is evaluated again.
+func (f *Fn) AfterEdgesMustPass(r *Rule, edges map[[2]int]bool, s *Sites, label string) bool {
+	key := f.Name + ": " + label
+	r.AddSites(len(edges) + s.Len())
+	if len(edges) == 0 || s.Len() == 0 {
+		r.Fail(key, f.P.Pos(f.Body.Pos()), "branch or %q not found in %s (rule would be vacuous)", s.Desc, f.Name)
+		return false
+	}
+	cut := s.Sync().Vs()
+	ok := true
+	for e := range edges {
+		for _, tgt := range []int{f.G.Exit, e[0]} {
+			if p := f.G.Path([]int{e[1]}, tgt, cut, nil); p != nil {
+				r.Fail(key, f.P.Pos(f.G.Vs[e[0]].Node.Pos()), "after this branch the function continues without %s; path (lines): %s", s.Desc, f.DescribePath(p))
+				ok = false
+				break
+			}
+		}
+	}
+	return ok
+}
+
+// FailureStops checks that from the failure edge of the test of a's result no
+// site of b is reachable (loop-tolerant form of "b only after a succeeded").
+func (f *Fn) FailureStops(r *Rule, a, b *Sites, label string) bool {
+	key := f.Name + ": " + label
+	a, b = a.Sync(), b.Sync()
+	r.AddSites(a.Len() + b.Len())
+	if a.Len() == 0 || b.Len() == 0 {
+		r.Fail(key, f.P.Pos(f.Body.Pos()), "no site of %q or %q in %s (rule would be vacuous)", a.Desc, b.Desc, f.Name)
+		return false
+	}
+	ok := true
+	for _, s := range a.List {
+		e, has := f.SuccessEdge(s)
+		if !has {
+			r.Fail(key, f.P.Pos(s.Node.Pos()), "result of %s is not tested directly after the call: failure edge undecidable", a.Desc)
+			ok = false
+			continue
+		}
+		cv := f.G.Vs[e[0]]
+		fail := cv.TrueSucc
+		if e[1] == cv.TrueSucc {
+			fail = cv.FalseSucc
+		}
+		for _, t := range b.List {
+			if p := f.G.Path([]int{fail}, t.V, nil, map[[2]int]bool{}); p != nil {
+				r.Fail(key, f.P.Pos(t.Node.Pos()), "%s reachable after %s failed; path (lines): %s", b.Desc, a.Desc, f.DescribePath(append([]int{cv.ID}, p...)))
+				ok = false
+			}
+		}
+	}
+	return ok
 }
